@@ -12,6 +12,14 @@ Real (not stubbed) on the checked path: json (Encoder/Decoder round trip through
 filesystem dict), os.path.join, collections.defaultdict, hl.ReferenceGenome / hl.Interval / hl.Locus /
 hl.Struct / hl.tstruct / hl.tlocus / hl.tarray / hl.tinterval (one real import interval is serialised by
 to_dict and parsed back by the Decoder), VDSMetadata, CombinerOutType, FatalError.
+
+Cuts (each registered as an assumption by harness/C38_planrun.py):
+  * floor(log(n, b)) -> exact integer logarithm + table of the points where the float expression differs;
+  * uuid.uuid4 -> fresh deterministic values; tmatrix -> opaque tokens; hl.get_reference -> the one genome;
+  * CrossHair's f-string hook builds the lazy symbolic repr of a symbolic int instead of realising it;
+  * symbolic numbers are realised when save() serialises the plan; the stdlib json loops, json.load, and
+    everything after the first load (when the whole state is checked to be concrete) run with CrossHair
+    tracing switched off - real code, concrete values, nothing left to fork on but the resume bools.
 """
 import json as _real_json
 import math
